@@ -623,6 +623,49 @@ def correspond(ctx, lines, reals, label=""):
     ctx.traces += len(lines)
 
 
+def grid_cases():
+    """Deterministic grid, run first on every run whatever the seed (see notes/C05.md)."""
+    import random as _random
+    progs = [
+        [("log", 1), ("ret", 5)],
+        [("call", [("call", [("log", 1), ("ret", 7)])]), ("ret", 3)],
+        [("raise", "E1")], [("raise", "InvalidState")], [("raise", "FE")], [("raise", "StopIteration")],
+        [("raise", "GenExit")], [("raise", "RT.other")],
+        [("raisefrom", "E1", "E2")], [("raisefrom", "E2", "None")],
+        [("call", [("raisefrom", "BE", "E1")])],
+        [("cset", 0, 1), ("cget", 0), ("ret", 2)], [("cset", 1, 3), ("creset", 1), ("cset", 0, 2)],
+        [("tok", 1)], [("fut", 1)], [("bare",)],
+        [("try", [("fut", 1)], [], [("log", 1)])],
+        [("try", [("tok", 1)], [("Cancelled", [("log", 1)])], []), ("ret", 5)],
+        [("try", [("tok", 1)], [("Exception", [("log", 1)])], [("log", 2)])],
+        [("try", [("fut", 1)], [], [("fut", 2)])],
+        [("try", [("fut", 1)], [], [("fut", 1)])],
+        [("try", [("fut", 1)], [], [("log", 1), ("tok", 2), ("log", 2)])],
+        [("try", [("call", [("try", [("fut", 1)], [], [("log", 1), ("fut", 2), ("log", 2)])])], [], [("log", 3)])],
+        [("try", [("call", [("try", [("call", [("try", [("tok", 1)], [], [("fut", 2)])])], [], [("log", 4)])])], [],
+          [("log", 5)])],
+        [("try", [("tok", 1)], [("BaseException", [("tok", 2)])], [])],
+        [("try", [("tok", 1)], [("SyncAbort", [("log", 1)])], []), ("ret", 5)],
+        [("try", [("tok", 1)], [("GenExit", [("tok", 2)])], [("tok", 3)])],
+        [("cset", 0, 2), ("try", [("fut", 1)], [], [("cset", 1, 4)])],
+    ]
+    out = []
+    for p in progs:
+        for variant in ("await_sync", "syncfunction", "syncfunction_gen", "await_sync_gen"):
+            out.append((p, variant))
+    fixed = _random.Random(20250502)
+    out += [(gen_cleanup(fixed), fixed.choice(["await_sync", "syncfunction", "await_sync_gen"])) for _ in range(60)]
+    out += [(gen_sync(fixed), fixed.choice(["await_sync", "syncfunction", "syncfunction_gen"])) for _ in range(120)]
+    aiters = [([[("ret", 1)], [("call", [("ret", 2)])], [("ret", 3)]], 5),
+              ([[("ret", 1)], [("tok", 2)], [("ret", 3)]], 5),
+              ([[("ret", 1)], [("raise", "E1")]], 4), ([[("raise", "InvalidState")]], 3),
+              ([[("cset", 0, 1), ("ret", 1)], [("cget", 0), ("ret", 2)]], 4),
+              ([[("ret", 1)], [("try", [("fut", 1)], [], [("fut", 2)])]], 4), ([], 2),
+              ([[("raisefrom", "E1", "E2")]], 2), ([[("raise", "FE")]], 2)]
+    aiters += [gen_aiter(fixed) for _ in range(40)]
+    return out, aiters
+
+
 def corpus_cases():
     import json
     from .c02 import _tuplify
@@ -645,6 +688,11 @@ def run(ctx):
     gc.disable()
     try:
         l0, r0 = explore_sync(ctx, corpus_cases(), loop, label="corpus: ")
+        gs, ga = grid_cases()
+        lg, rg = explore_sync(ctx, gs, loop, label="grid: ")
+        lga, rga = explore_aiter(ctx, ga, loop, label="grid: ")
+        l0, r0 = l0 + lg + lga, r0 + rg + rga
+        ctx.extra["deterministic_grid_cases"] = len(gs) + len(ga)
         n = 80000 if ctx.thorough() else 3000
         cases = [(gen_cleanup(rng) if i % 10 == 0 else gen_sync(rng),
                   rng.choice(["await_sync"] * 13 + ["syncfunction"] * 3 + ["syncfunction_gen"] * 2 + ["await_sync_gen"] * 2))
